@@ -15,7 +15,7 @@ CHECKFNS = [TD, TDX, ORD, ORDX, MMW]
 ASSUMPTIONS = [
     "treewidth = tw_perm (least elimination width over all vertex permutations, the definition in quickbb's docstring); proved equal to the least width of a valid tree decomposition (C10_tw_perm_is_treewidth); the check functions decide comparisons with tw_perm by a pruned search proved equivalent (C10_tw_oracle_spec)",
     "dict keys are canonicalised to naturals 0..n-1 in the order the harness inserts them; Python sets of ints < 8 iterate in ascending order (CPython), which the model uses wherever the code iterates a set; with other key types / >= 9 vertices only the verified oracles and the (valid?, width) observation decide",
-    "for acb it is proved for every graph that whatever it returns is a valid tree decomposition (C10_acb_valid); that it returns at all and that its width is the treewidth is proved in the kernel only for all graphs on <= 5 vertices (_upto5; quickbb and min_fill are proved for every graph); beyond that every implementation output is judged by td_ok and compared with the treewidth oracle (<= %d vertices) and with the model on every run" % 9,
+    "acb is proved total and optimal for every simple undirected graph at the model level (C10_acb_returns, C10_acb_optimal: no assertion can fail, the width is the treewidth; completeness of the ACP dynamic programme C10_acb_connected_complete); independently every implementation output is judged by td_ok and compared with the treewidth oracle (<= %d vertices) and with the model on every run" % 9,
     "benchmark graphs (12..25 vertices): the treewidths listed in /repo/test/test_factorize.py (freetdi/named-graphs) are trusted as external reference values",
 ]
 METHODS = ["min_fill", "quickbb", "acb"]
@@ -371,7 +371,7 @@ def run(tier, seed):
                kernel_reevaluated=nk, seconds=dict(implementation_calls=round(t_impl, 1), total_run=round(time.time() - t0, 1)),
                exact_agreement=dict(trees="%d/%d" % (x_ok, len(xcodes)), orders="%d/%d" % (y_ok, len(ycodes)),
                                     note="int keys, <= 8 vertices; measured only"),
-               open_items=["acb total (no assertion fails) and optimal for all graphs: only _upto5 proved (completeness of the ACP dynamic programme); validity of whatever it returns is proved for every graph (C10_acb_valid)"])
+               open_items=[])
     return cov, violations
 
 def replay(path):
@@ -398,7 +398,7 @@ def replay(path):
 
 MANIFEST = dict(
     level="proof",
-    text="Coq theorems about a Gallina model that follows fggs/factorize.py statement by statement. Unbounded (every simple undirected graph): for every permutation of the vertices tree_decomposition_from_order returns a valid tree decomposition (tree = connected + every edge a bridge, vertex and edge cover, running intersection) whose width is the elimination width; min_fill returns a permutation together with exactly that width, so method='min_fill' is valid; quickbb always returns (its assert cannot fail) a permutation whose elimination width it reports and that width IS the treewidth (safety of the simplicial/almost-simplicial reductions, of the separator rule and of the pruning), so method='quickbb' is valid and optimal for every graph; whatever method='acb' returns is a valid tree decomposition (certificates of the ACP chart are rooted decompositions with pairwise different bags, un-rooting is faithful); minor_min_width <= treewidth <= min_fill; tw_perm (least elimination width) is the least width of a valid tree decomposition; the executable checker td_ok is sound and complete. Bounded (all labelled graphs on <= 5 vertices, all dict insertion orders on <= 4): acb returns (no assertion fails) a valid decomposition of width exactly the treewidth, graphs with isolated vertices included (defect F8 of acb was repaired in /repo 96ab4c3 and in the model; a regression is reported as a VIOLATION). Every implementation output is judged by the extracted td_ok and treewidth oracle and compared with the model at the level (valid?, width).",
-    note="Trusted: Coq kernel + vm_compute, extraction (ExtrOcamlBasic) cross-checked against vm_compute, the Python harness that numbers dict keys and converts the tree dict to (bags, index pairs). That acb returns at all and that its width is the treewidth are, beyond 5 vertices, tested against the verified oracles on every run, not proved.",
+    text="Coq theorems about a Gallina model that follows fggs/factorize.py statement by statement. Unbounded (every simple undirected graph): for every permutation of the vertices tree_decomposition_from_order returns a valid tree decomposition (tree = connected + every edge a bridge, vertex and edge cover, running intersection) whose width is the elimination width; min_fill returns a permutation together with exactly that width, so method='min_fill' is valid; quickbb always returns (its assert cannot fail) a permutation whose elimination width it reports and that width IS the treewidth (safety of the simplicial/almost-simplicial reductions, of the separator rule and of the pruning), so method='quickbb' is valid and optimal for every graph; method='acb' always returns (connected_components terminates and returns connected sets; neither assert of acb_connected, no chart look-up, the final assert False and the for/else assert False of acb can fail), what it returns is a valid tree decomposition (certificates of the ACP chart are rooted decompositions with pairwise different bags, un-rooting is faithful) and its width IS the treewidth for every graph: completeness of the Arnborg-Corneil-Proskurowski dynamic programme (normal form: a k-subset separator all of whose components are k-eliminable exists if tw <= k, and a k-eliminable component splits at the last vertex of its elimination order into k-eliminable components attached through k-separators; so acb_connected(c, k) answers False only if tw(c) > k), trees returned for k have bags of <= k+1 vertices, min_fill's upper bound is >= treewidth, components with upper bound 0 are single vertices; minor_min_width <= treewidth <= min_fill; tw_perm (least elimination width) is the least width of a valid tree decomposition; the executable checker td_ok is sound and complete. Bounded cross-checks kept (all labelled graphs on <= 5 vertices, all dict insertion orders on <= 4): quickbb and acb return decompositions accepted by td_ok of width exactly the treewidth (defect F8 of acb was repaired in /repo 96ab4c3 and in the model; a regression is reported as a VIOLATION). Every implementation output is judged by the extracted td_ok and treewidth oracle and compared with the model at the level (valid?, width).",
+    note="Trusted: Coq kernel + vm_compute, extraction (ExtrOcamlBasic) cross-checked against vm_compute, the Python harness that numbers dict keys and converts the tree dict to (bags, index pairs). The model fixes an iteration order for Python sets (ascending); the acb totality/optimality theorems are statements about that model, but their proofs do not use the order (the lemmas about the loops over `j - i`, `i` and `chart[m]` hold for any order; the order only selects which of several optimal trees is returned).",
     technique="Coq proof (model + theorems) + model/implementation correspondence with verified-spec oracle",
     design_ref="DESIGN.md section 6, C10; Appendix A.9; Appendix C (C10)")
